@@ -457,6 +457,7 @@ def import_repo():
     """import py_ballisticcalc from REPO's working tree (quietly)."""
     import warnings
     warnings.filterwarnings('ignore')
+    warnings.showwarning = lambda *a, **k: None   # _integrate calls warnings.simplefilter("once"), which re-enables output
     if str(REPO) not in sys.path:
         sys.path.insert(0, str(REPO))
     import py_ballisticcalc
